@@ -352,7 +352,9 @@ impl Display for WeekDayRange {
                     write!(f, "-{}", wday_str(*range.end()))?;
                 }
 
-                if nth_from_start.contains(&false) || nth_from_end.contains(&false) {
+                // The grammar only allows an offset after a list of positions
+                if nth_from_start.contains(&false) || nth_from_end.contains(&false) || *offset != 0
+                {
                     let pos_weeknum_iter = nth_from_start
                         .iter()
                         .enumerate()
